@@ -350,4 +350,6 @@ func TestVerifC03(t *testing.T) {
 		t.Fatal(err)
 	}
 	_ = errors.New
+	// part 4b: the MODELLED leg (api_ops.jsonl / api_impl.out), see zz_verif_c03b_test.go
+	c03ApiModelLeg(t, out, seed, thorough)
 }
